@@ -102,6 +102,7 @@ def steps(node):
         out.append(("record-add-field-with-default", dict(node, fields=fs + [{"name": "added", "type": "int", "default": 42}])))
         out.append(("record-add-field-null-default", dict(node, fields=[{"name": "added", "type": ["null", "string"], "default": None}] + fs)))
         out.append(("record-add-field-no-default", dict(node, fields=fs + [{"name": "added", "type": "int"}])))
+        out.append(("record-add-field-bytes-default", dict(node, fields=fs + [{"name": "addedb", "type": "bytes", "default": "\u00ff\u0001"}])))
         if fs:
             out.append(("record-drop-first-field", dict(node, fields=fs[1:])))
             out.append(("record-drop-last-field", dict(node, fields=fs[:-1])))
